@@ -1,0 +1,36 @@
+//go:build verif
+// +build verif
+
+package sarama
+
+// Verification hooks (build tag `verif`): every call site reports an event to a sink installed by the
+// verification harness. Without a sink the calls do nothing.
+
+// VerifSink receives (kind, message or nil, a, b) events from the producer pipeline.
+var VerifSink func(kind string, msg *ProducerMessage, a, b int)
+
+// VerifSinkKV receives (kind, key, a, b) events from components that do not handle ProducerMessages.
+var VerifSinkKV func(kind string, key string, a, b int64)
+
+func verifEvt(kind string, msg *ProducerMessage, a, b int) {
+	if s := VerifSink; s != nil {
+		s(kind, msg, a, b)
+	}
+}
+
+func verifEvtKV(kind string, key string, a, b int64) {
+	if s := VerifSinkKV; s != nil {
+		s(kind, key, a, b)
+	}
+}
+
+func verifEvtSet(kind string, set *produceSet, a int) {
+	if s := VerifSink; s != nil {
+		set.eachPartition(func(topic string, partition int32, pSet *partitionSet) {
+			for i, m := range pSet.msgs {
+				s(kind, m, a, i)
+			}
+		})
+		s(kind+".end", nil, a, 0)
+	}
+}
